@@ -247,8 +247,10 @@ Definition render_obj_stream (num gen : N) (d : list (bytes * value)) (data : by
   let '(s2, c4) := sepc false c3 in
   let '(k0, c5) := pick 2 c4 in
   let e0 := if k0 =? 0 then [10] else [13; 10] in
-  let '(k1, c6) := pick 3 c5 in
-  let e1 := if k1 =? 0 then [10] else if k1 =? 1 then [13; 10] else [13] in
+  (* the end-of-line before endstream is only recommended (7.3.8.1): LF, CR LF, CR or none,
+     chosen for every stream on its own; /Length is right, so the data end where it says *)
+  let '(k1, c6) := pick 4 c5 in
+  let e1 := if k1 =? 0 then [10] else if k1 =? 1 then [13; 10] else if k1 =? 2 then [13] else [] in
   let '(s3, c7) := sepc true c6 in
   let '(e, c8) := eolc c7 in
   (h ++ s1 ++ b ++ s2 ++ kw_stream ++ e0 ++ data ++ e1 ++ kw_endstream ++ s3 ++ kw_endobj ++ e, c8).
